@@ -23,6 +23,10 @@ C = {
    text="Lean theorems for all peer IDs, infohashes and list configurations: client ID extraction (bytes 1-6 after '-', else 0-5); whitelist => accept iff listed; blacklist => accept iff not listed; no list => accept; scrapes never blocked; both lists / wrong-length client entries / non-40-hex torrent entries are refused at construction. Tied to the two real hooks by differential runs on generated configurations (malformed entries, duplicates, both lists) and near-miss IDs.",
    note="trusted: Lean kernel + 3 standard axioms; harness; yaml decoding of options and encoding/hex are modelled (hexDecode is compared through the stream), not verified",
    tech="Lean 4 proof (decision logic stated outright) + differential correspondence check against the Go hooks"),
+ "C06": dict(
+   text="Lean theorems over a model of ParseURLData/parseQuery/QueryParams/ParseAnnounce/ParseScrape/SanitizeAnnounce/SanitizeScrape, for every URI, header, remote address and option set: the parser is a total function (reject with a client error, or accept); accepted announces have port != 0, numwant = default when absent and <= max when supplied, IP length matching its family, 20-byte ids; every accepted field equals the last percent-decoded value under its key (info_hash: the single one); the result depends only on the infohash list and the last value of each consulted key (hence order/unrelated-parameter independence); unescape inverts every per-byte escaping choice; scrapes carry the first min(k,max) infohashes in order. Tied by differential runs of the real parser on rendered, boundary, address-grid and raw URIs.",
+   note="trusted: Lean kernel + 3 standard axioms; harness; url.QueryUnescape/strconv.ParseUint as modelled; strings.ToLower on non-ASCII keys, net.ParseIP, net.SplitHostPort are external (results supplied to the model by the harness, computed independently of the code under test); net/http request syntax outside the model",
+   tech="Lean 4 proof (inversion of the monadic parser, congruence on consulted keys, escaping round trip) + differential correspondence check against the Go parser"),
 }
 
 def main():
